@@ -1,7 +1,7 @@
 #!/bin/bash
 # usage: seedscan.sh [ids...]  — runs the quick check of each seeded change's property against a scratch worktree with the patch applied;
 # writes seeded/<id>/detection.json (exit code, VIOLATION/UNDECIDED lines).  Never touches /repo's working tree.
-wt=/tmp/wt-scan
+wt=${SCAN_WT:-/tmp/wt-scan}
 [ -d $wt ] || git -C /repo worktree add --detach $wt HEAD >/dev/null 2>&1
 ids="$@"; [ -z "$ids" ] && ids=$(ls /verif/seeded | grep '^C')
 for id in $ids; do
